@@ -180,6 +180,15 @@ def r47_definite_reset(ctx):
                                 # consumers in the rules: guarded by `not V.exact` (rule R13c); here: the
                                 # branch that stores epsilon also stores exact = False and the other stores True
                                 paired = _exact_paired(ctx, cls, init, init_stores)
+                if not paired and attr == 'epsilon' and init_stores and qn.endswith('Guarded') \
+                        and not [1 for f_, n_ in loads[attr] if f_.owner_class is cls and f_ is not init]:
+                    # decided by cases: epsilon is (re)created exactly when initialize() declares the arithmetic inexact (guard == 0),
+                    # and the consumers read it only under `not V.exact` (checked below for every rule)
+                    from .values import guard_cases
+                    z_, nz_ = guard_cases(init, cls.name)
+                    if z_.get('eps') and not nz_.get('eps') and z_.get('exact') == {False} and nz_.get('exact') == {True}:
+                        paired = True
+                        conds = {(('guard', 'Eq', '0'),)}
                 if paired:
                     ctx.ok(R, anchor, anchor_f, what,
                            'stored under a condition that also guards every load inside the class (paired guard %s)'
